@@ -4,6 +4,7 @@ use vstd::prelude::*;
 use std::collections::HashMap;
 use std::hash::Hash;
 use std::fmt::Debug;
+use std::ops::Div;
 use vstd::std_specs::hash::*;
 verus! {
 //@include common/prelude.vrs
